@@ -930,5 +930,15 @@ pub fn len_cases(cx: &mut Cx) {
 		let strs: Vec<String> = (0..k.min(3000)).map(|j| "ab".repeat(j % 3)).collect();
 		let sl2 = strs.len();
 		one::<Vec<String>>(cx, "Vec<String>", &strs, sl2);
+		// elements that occupy no input: the count is larger than what follows it
+		one::<Vec<()>>(cx, "Vec<()>", &vec![(); k], k);
+		one::<VecDeque<()>>(cx, "VecDeque<()>", &vec![(); k].into_iter().collect(), k);
+		one::<LinkedList<()>>(cx, "LinkedList<()>", &(0..k.min(5000)).map(|_| ()).collect(), k.min(5000));
+		one::<Vec<[u32; 0]>>(cx, "Vec<[u32;0]>", &vec![[0u32; 0]; k], k);
+		one::<Vec<crate::universe::AllSk>>(cx, "Vec<AllSk>", &vec![crate::universe::AllSk::default(); k.min(5000)], k.min(5000));
+		one::<(Vec<()>, u8)>(cx, "(Vec<()>,u8)", &(vec![(); k], 5), k);
+		let us: BTreeSet<()> = if k == 0 { BTreeSet::new() } else { [()].into_iter().collect() };
+		let ul = us.len();
+		one::<BTreeSet<()>>(cx, "BTreeSet<()>", &us, ul);
 	}
 }
